@@ -27,7 +27,7 @@ type Msg struct {
 	wire   []byte // marshalled protobuf (wire mode)
 	sym    string
 	forged bool // crafted by the adversary (not produced by a real stack)
-	anon   int  // 0: the sender's connection metadata names it; 1: no "id" entry; 2: an id that is no configured replica
+	anon   int  // 0: the sender's connection metadata names it; 1: no "id" entry; 2: an id that is no configured replica; 3: id 0
 	n      uint64
 }
 
@@ -478,6 +478,8 @@ func (nd *Node) inject(m *Msg) {
 			ctx = gorums.ServerCtx{Context: metadata.NewIncomingContext(peer.NewContext(w.ctx, &peer.Peer{}), metadata.Pairs("x", "y"))}
 		case 2:
 			ctx = gorums.ServerCtx{Context: peerCtx(w.ctx, hotstuff.ID(w.plan.N+7))}
+		case 3:
+			ctx = gorums.ServerCtx{Context: peerCtx(w.ctx, 0)}
 		}
 		switch m.kind {
 		case "propose":
